@@ -2212,6 +2212,13 @@ class Data(Container, NetCDFHDF5, Files, core.Data):
 
                 index = slice(index, index + 1, 1)
             else:
+                if isinstance(index, list) and index:
+                    # A list of Booleans is a Boolean sequence, and
+                    # not a sequence of the integers 0 and 1.
+                    index1 = np.asanyarray(index)
+                    if index1.dtype.kind == "b":
+                        index = index1
+
                 if getattr(getattr(index, "dtype", None), "kind", None) == "b":
                     # E.g. index is [True, False, True] -> [0, 2]
                     #
